@@ -11,10 +11,10 @@ typedef Quaternion<cd,Unitary> BU;
 typedef Quaternion<double,Hermitian> QH;
 typedef Quaternion<double,Unitary> QU;
 
-static void law (const std::string& what, const Jones<double>& g, const Jones<double>& w)
+static void law (const std::string& what, const Jones<double>& g, const Jones<double>& w, bool applies = true)
 {
   out_jones ("g", g); out_jones ("w", w);
-  if (!symbolic) for (unsigned i=0; i<4; i++) expect (what + " element " + std::to_string (i), g[i], w[i]);
+  if (!symbolic && applies) for (unsigned i=0; i<4; i++) expect (what + " element " + std::to_string (i), g[i], w[i]);
 }
 static void lawc (const std::string& what, const cd& g, const cd& w)
 { out ("g", g); out ("w", w); if (!symbolic) expect (what, g, w); }
@@ -39,7 +39,13 @@ template<class Q> static void common_laws (const std::string& t)
   fn ("norm_" + t, [] { Q a = qmk<Q>::in ("a"); lawr ("norm(a) = norm(convert(a))", norm (a), norm (convert (a))); });
   fn ("conj_" + t, [] { Q a = qmk<Q>::in ("a"); law ("convert(conj a) = conj(convert a)", convert (conj (a)), conj (convert (a))); });
   fn ("herm_" + t, [] { Q a = qmk<Q>::in ("a"); law ("convert(herm a) = herm(convert a)", convert (herm (a)), herm (convert (a))); });
-  fn ("inv_" + t, [] { Q a = qmk<Q>::in ("a"); law ("convert(inv a) = inv(convert a)", convert (inv (a)), inv (convert (a))); });
+  fn ("inv_" + t, [] { Q a = qmk<Q>::in ("a"); 
+    // the inverse exists for non-singular arguments only (the property's clause); the search mode also proposes singular ones
+    bool nonsingular = true;
+#ifndef SYMX_SYMBOLIC
+    nonsingular = std::abs (det (convert (a))) > 1e-9 * (1.0 + norm (convert (a)));
+#endif
+    law ("convert(inv a) = inv(convert a)", convert (inv (a)), inv (convert (a)), nonsingular); });
   // products with Jones matrices equal the products of the matrix images
   fn ("jones_times_" + t, [] { Jones<double> j = jones_in ("j"); Q a = qmk<Q>::in ("a"); law ("J*q = J*convert(q)", j * a, j * convert (a)); });
 }
